@@ -190,17 +190,6 @@ def judge(chk, label, path, text, res, with_script):
                               dict(base, front=front, first=strip(st), second=strip(b[k])))
 
 
-def _known_by_sig(self, sig):
-    for pat, e in self.findings.signatures().items():
-        if re.fullmatch(pat, sig):
-            self.known_hits[e['id']] = e['what']
-            return True
-    return False
-
-
-core.Check.known_by_sig = _known_by_sig
-
-
 def run_inputs(chk, runner, inputs, batch, script_every):
     prefix = [
         {'op': 'vm', 'vm': 0, 'maps': [[os.path.join(CORPUS, 'pp'), '/']], 'max_runtime_ms': 200, 'print_work': False},
